@@ -64,6 +64,18 @@ pub fn run_composite(rep: &mut Report, p: &Params, xs: &[In]) {
     let n = p.p[0];
     let k = p.k;
     let mut comp = Inst::new(p);
+    // every other composite is recycled (used on unrelated data, then reset()); the parts are always fresh
+    if (xs.len() + p.p[0]) % 2 == 0 {
+        for x in xs.iter().take(2 * p.max_period().min(40) + 3).rev() {
+            let y = match x {
+                In::S(v) => In::S(v * 0.75 + 1.0),
+                In::B(b) => In::B(crate::inst::Bar { v: b.v + 2.0, ..b.scale_prices(0.75) }),
+            };
+            let _ = comp.feed(&y);
+        }
+        let _ = comp.reset();
+        rep.count("composites_recycled(reset_after_prefix)");
+    }
     // parts
     let mut sma = mk(Kind::Sma, n);
     let mut sd = mk(Kind::Sd, n);
@@ -244,9 +256,11 @@ pub fn run(ctx: &Ctx) -> Report {
             if idx % 5 == 0 {
                 // the same stream in a tiny / huge price unit, and negated (spreads, de-meaned series)
                 let f = *rng.pick(&[1e-12, 1e9, -1.0, -1e-3]);
-                if f > 0.0 || kind.has_scalar() && !bars {
+                {
+                    // a negative factor swaps high and low so that the bar stays a valid bar (low <= close <= high)
                     let scaled: Vec<In> = inputs.iter().map(|x| match x {
                         In::S(v) => In::S(v * f),
+                        In::B(b) if f < 0.0 => In::B(crate::inst::Bar { o: b.o * f, h: b.l * f, l: b.h * f, c: b.c * f, v: b.v }),
                         In::B(b) => In::B(b.scale_prices(f)),
                     }).collect();
                     run_composite(rep, &p, &scaled);
